@@ -668,7 +668,7 @@ def _sym_post(sign):
 contract(
     REL + "::Corr.symmetric", props=["C14"], lib="obs", params=dict(self=CorrSpec(min_T=2)),
     raises=[("ValueError", lambda a: Or(Tn(a.self) % 2 != 0,
-                                        And(CN(a.self, 0), ForAll(1, Tn(a.self), lambda t: Or(CN(a.self, t), CN(a.self, Tn(a.self) - t))))))],
+                                        And(CN(a.self, 0), ForAll(0, Tn(a.self) - 1, lambda k: Or(CN(a.self, k + 1), CN(a.self, Tn(a.self) - (k + 1)))))))],
     ensures=_sym_post(1), result=new_corr, crosscheck="loose",
     note="the warning heuristic (np.argmax of |values|) is dropped: it has no effect on the result",
 )
